@@ -232,7 +232,7 @@ theorem resolveKeys_eq_intent (sch : Schema) (joined rev : Bool) (args : List Or
 def OrderBy.args : OrderBy → List OrderArg
   | .none => []
   | .one a => [a]
-  | .many l => l
+  | .many _ l => l
 
 def distinctIf {α} [DecidableEq α] (d : Bool) (l : List α) : List α := if d then dedup l else l
 
@@ -251,8 +251,12 @@ theorem sorted_nil_keys (l : List Row) : Sorted (leKeys []) l := by
   | nil => exact List.Pairwise.nil
   | cons a l ih => exact List.pairwise_cons.mpr ⟨fun _ _ => rfl, ih⟩
 
+/-- lists and tuples of keys are both translated key by key -/
+theorem mungeSeq_eq (sch : Schema) (k : SeqKind) (l : List OrderArg) : mungeSeq sch k l = l.map (mungeOrderBy sch) := by
+  cases k <;> simp [mungeSeq, Extracted.mungedSeqKinds]
+
 theorem evalSelect_spec (sch : Schema) (db : Db) (u : USel) (keys : List Key)
-    (ho : u.order ≠ .many [])
+    (ho : ∀ k, u.order ≠ .many k [])
     (hk : intentKeys sch u.clause.usesOth u.rev u.order.args = some keys) :
     ∃ out, evalSelect sch db (Sel.ofU sch u) = some out
       ∧ out.Perm (distinctIf u.dist (source db u.clause)) ∧ Sorted (leKeys keys) out := by
@@ -275,15 +279,15 @@ theorem evalSelect_spec (sch : Schema) (db : Db) (u : USel) (keys : List Key)
     simp only [evalSelect, evalRows, queryForSelect, orderKeys, Sel.ofU, mungeAll, distinctIf]
     simp only [List.map_cons, List.map_nil] at h
     rw [h]; rfl
-  | many l =>
+  | many k l =>
     cases l with
-    | nil => exact absurd rfl ho
+    | nil => exact absurd rfl (ho k)
     | cons a as =>
       have h := resolveKeys_eq_intent sch clause.usesOth rev (a :: as)
       simp only [OrderBy.args] at hk
       rw [hk] at h
       refine ⟨sortBy (leKeys keys) (distinctIf dist (source db clause)), ?_, sortBy_perm _ _, sorted_ok _⟩
-      simp only [evalSelect, evalRows, queryForSelect, orderKeys, Sel.ofU, mungeAll, distinctIf, List.map_cons,
+      simp only [evalSelect, evalRows, queryForSelect, orderKeys, Sel.ofU, mungeAll, mungeSeq_eq, distinctIf, List.map_cons,
         List.map_map]
       simp only [List.map_cons] at h
       change Option.map _ (resolveKeys sch clause.usesOth
